@@ -297,7 +297,7 @@ var statCounts = []uint32{0, 1, 4, 255, 65535, 1 << 16, 1 << 19, 1 << 20, 1 << 2
 var mutClasses = []string{
 	"hdrlen_small", "hdrlen_mid", "hdrlen_minus", "hdrlen_plus", "hdrlen_huge", "version", "msgtype",
 	"tlv_len_zero", "tlv_truncated", "tlv_len_over", "term_reason", "stats_count", "stats_tlv",
-	"peerup_as_mismatch", "peerup_astrans", "peerup_id0", "peerup_short_open", "peerup_open_garbage", "peerup_dup",
+	"peerup_as_mismatch", "peerup_astrans", "peerup_id0", "peerup_short_open", "peerup_open_garbage", "peerup_dup", "peerup_caps_foreign",
 	"rm_unknown_peer", "rm_after_down", "rm_bgp_random", "rm_bgp_hdrlen", "rm_bgp_type", "rm_update_trunc",
 	"rm_update_attr", "rm_update_nlri", "peerdown_variants", "truncate", "bitflip", "random", "splice", "tiny_flood",
 }
@@ -422,7 +422,7 @@ func mutate(rng *rand.Rand, cls string) stream {
 		j := c.afterPeerUps()
 		c.insert(j, m.TypeStats, m.StatsRaw(p.hdr, count, body))
 		return done(j)
-	case "peerup_as_mismatch", "peerup_astrans", "peerup_id0", "peerup_short_open", "peerup_open_garbage", "peerup_dup":
+	case "peerup_as_mismatch", "peerup_astrans", "peerup_id0", "peerup_short_open", "peerup_open_garbage", "peerup_dup", "peerup_caps_foreign":
 		q := c.newPeer(rng, 9)
 		sent := m.OpenFor(c.localAS, c.routerID, true)
 		recv := m.OpenFor(q.hdr.AS, q.hdr.BGPID, true)
@@ -498,6 +498,30 @@ func mutate(rng *rand.Rand, cls string) stream {
 		case "peerup_dup":
 			q = p
 			sb, rb = c.opens(rng, p)
+		case "peerup_caps_foreign":
+			// well-formed OPENs that advertise address families the receiver has no tables for: multiprotocol and
+			// add-path tuples for an unassigned AFI with SAFI unicast, VPNv4, labelled unicast, BGP-LS
+			fams := [][2]uint16{{25, 1}, {1, 128}, {2, 4}, {16388, 71}, {3, 1}, {0, 1}}
+			var tuples [][3]uint16
+			var extra []m.Cap
+			for k := 1 + rng.IntN(3); k > 0; k-- {
+				f := fams[rng.IntN(len(fams))]
+				tuples = append(tuples, [3]uint16{f[0], f[1], uint16(1 + rng.IntN(3))})
+				if rng.IntN(2) == 0 {
+					extra = append(extra, m.CapMP(f[0], uint8(f[1])))
+				}
+			}
+			extra = append(extra, m.CapAddPath(tuples...))
+			switch rng.IntN(3) {
+			case 0:
+				sent.Caps = append(sent.Caps, extra...)
+			case 1:
+				recv.Caps = append(recv.Caps, extra...)
+			default:
+				sent.Caps = append(sent.Caps, extra...)
+				recv.Caps = append(recv.Caps, extra...)
+			}
+			sb, rb = sent.Bytes(), recv.Bytes()
 		}
 		j := c.afterPeerUps()
 		c.insert(j, m.TypePeerUp, m.PeerUp(q.hdr, q.local, 179, 4321, sb, rb, nil))
